@@ -13,7 +13,7 @@ use crate::error::ContractError;
 use crate::helpers::{
     validate_emergency_unlock_penalty, validate_farm_expiration_time, validate_unlocking_duration,
 };
-use crate::state::{CONFIG, FARM_COUNTER};
+use crate::state::{CONFIG, FARM_COUNTER, MAX_FARMS_LIMIT};
 use crate::{farm, manager, position, queries};
 
 const CONTRACT_NAME: &str = "mantra:farm-manager";
@@ -34,6 +34,14 @@ pub fn instantiate(
     ensure!(
         msg.max_concurrent_farms > 0,
         ContractError::UnspecifiedConcurrentFarms
+    );
+
+    // farms are only ever loaded up to MAX_FARMS_LIMIT per LP, a higher value could not be enforced
+    ensure!(
+        msg.max_concurrent_farms <= MAX_FARMS_LIMIT,
+        ContractError::MaximumConcurrentFarmsExceeded {
+            max: MAX_FARMS_LIMIT
+        }
     );
 
     // ensure the unlocking duration range is valid
